@@ -73,6 +73,5 @@ def replay(prop, repo, max_items=None):
                 subprocess.run(["git", "apply", "-R", "--whitespace=nowarn", path], cwd=dst, capture_output=True, text=True)
     finally:
         shutil.rmtree(scratch, ignore_errors=True)
-        for d in glob.glob(os.path.join(CACHE, "alt-*")):
-            shutil.rmtree(d, ignore_errors=True)
+        pass
     return res
